@@ -6,6 +6,8 @@ import (
 	"fmt"
 	"math"
 	"os"
+	"strconv"
+	"strings"
 
 	"github.com/zalf-rpm/Hermes2Go/hermes"
 )
@@ -223,7 +225,7 @@ func c19(args []string) {
 		key := fmt.Sprintf("envelope:synthetic-run-%d", k)
 		if k == *runs {
 			mode = 3 // F17: organic horizon, measured bulk density 0.3
-			key = "bulk-density-below-0.567:bd=0.3"
+			key = "bulk-density-below-0.567:input-density=0.3"
 		}
 		genSoilT(r, g, mode)
 		if mode == 3 {
@@ -294,7 +296,9 @@ func c19TraceLine(work, line string, lineNo int, r *rng, every int) {
 				}
 				// the profile hermes.Init left (init.go:16-20)
 				emit(jobj{"k": "init", "line": lineNo, "n": g.N, "tmin": hx(g.TMIN[g.ITAG-1]), "tmax": hx(g.TMAX[g.ITAG-1]),
-					"tbase": hx(g.TBASE), "tsoil0": hxs(g.TSOIL[0][:g.N+1])})
+					"tbase": hx(g.TBASE), "tsoil0": hxs(g.TSOIL[0][:g.N+1]),
+					// what Input made of the soil file (input.go:277): the density of every 10-cm layer, and the horizons
+					"bd": hxs(g.BD[:g.N]), "azho": g.AZHO, "ukt": g.UKT[:g.AZHO+1], "ld": g.LD[:g.AZHO], "bulk": hxs(g.BULK[:g.AZHO]), "stein": hxs(g.STEIN[:g.AZHO])})
 			}
 		case "steps":
 			if !havePre {
@@ -313,14 +317,20 @@ func c19TraceLine(work, line string, lineNo int, r *rng, every int) {
 				emit(c)
 				emitted++
 			}
-			key := fmt.Sprintf("envelope:traced-line-%d", lineNo)
-			if minBD < 0.567 {
-				key = fmt.Sprintf("bulk-density-below-0.567:traced-line-%d", lineNo)
-			}
-			env.check(key, days, g)
+			// the driver names the failing input after the soil FILE of that line (input density / stones / classes)
+			env.check(fmt.Sprintf("envelope:traced-line-%d", lineNo), days, g)
 		}
 	}
-	res := runProject(work, splitArgs(line))
+	// "@every=<n>" in a batch line: sampling of that run (harness metadata, not passed on)
+	var runArgs []string
+	for _, t := range splitArgs(line) {
+		if strings.HasPrefix(t, "@every=") {
+			every, _ = strconv.Atoi(t[len("@every="):])
+		} else if !strings.HasPrefix(t, "@") {
+			runArgs = append(runArgs, t)
+		}
+	}
+	res := runProject(work, runArgs)
 	hermes.VerifProbe = nil
 	o := jobj{"k": "run", "line": lineNo, "success": res.Success, "err": res.Err, "days": days, "emitted": emitted}
 	if env != nil && days > 0 {
